@@ -111,6 +111,7 @@ static struct {
 	/* fill */
 	int            wash;		/* -1 leave alone, 0 off, 1 on */
 	int            gcLevel;		/* -1 leave alone, 1 demand, 2 automatic */
+	unsigned long  washWinA, washWinLen;	/* debugging aid: wash only allocations in a window */
 	/* collection schedule */
 	unsigned long  gcAt[MAXGCAT]; int nGcAt; int gcAtCur;
 	struct { unsigned long a, len; } gcWin[MAXSMALL]; int nGcWin;
@@ -203,6 +204,7 @@ static void planLoad(void)
 			else P.wash = 0;
 		}
 		else if (!strcmp(w[0], "gclevel")) P.gcLevel = (int) L(1);
+		else if (!strcmp(w[0], "washwin")) { P.washWinA = U(1); P.washWinLen = U(2); }
 		else if (!strcmp(w[0], "fill")) {	/* fill bytes only; washing itself left to the world */
 			stoVerifNewFill  = (unsigned char) strtoul(w[1], 0, 16);
 			stoVerifFreeFill = (unsigned char) strtoul(w[2], 0, 16);
@@ -363,6 +365,7 @@ static void simAllocHook(unsigned code, unsigned long nbytes)
 	inHook = 1;
 	ix = ++nAlloc;
 	if (P.wash >= 0) stoCtl(StoCtl_Wash, P.wash);
+	if (P.washWinLen) stoCtl(StoCtl_Wash, ix >= P.washWinA && ix < P.washWinA + P.washWinLen);
 	if (P.gcLevel > 0) stoCtl(1 /* StoCtl_GcLevel */, P.gcLevel);
 	if (P.traceAllocs) simLog("A %lu %lu %u\n", ix, nbytes, code);
 
